@@ -217,9 +217,15 @@ def _model_py():
          "plain handler: storage changed")
     need(len(p.orelse) == 1 and isinstance(p.orelse[0], ast.If) and u(p.orelse[0].test) == "op in ['list', 'oneormore', 'zeroormore']", "list handler not found")
     lh = p.orelse[0]
-    need(len(lh.body) == 1 and isinstance(lh.body[0], ast.For) and u(lh.body[0].iter) == "node" and u(lh.body[0].target) == "n", "list handler loop changed")
-    inner = lh.body[0].body
-    need(len(inner) == 1 and isinstance(inner[0], ast.If) and u(inner[0].test) == "n.rule_name != 'sep'", "list handler separator test changed")
+    # since d92ace3 the separator of the repetition is fetched before the loop and its nodes are skipped by identity
+    lbody = list(lh.body)
+    sep_by_identity = len(lbody) == 2 and u(lbody[0]) == "sep_rule = getattr(node.rule, 'sep', None)"
+    if sep_by_identity:
+        lbody = lbody[1:]
+    need(len(lbody) == 1 and isinstance(lbody[0], ast.For) and u(lbody[0].iter) == "node" and u(lbody[0].target) == "n", "list handler loop changed")
+    inner = lbody[0].body
+    need(len(inner) == 1 and isinstance(inner[0], ast.If) and u(inner[0].test) == (
+        "sep_rule is None or n.rule is not sep_rule" if sep_by_identity else "n.rule_name != 'sep'"), "list handler separator test changed")
     tail = inner[0].body[-2:]
     need(u(tail[0]) == "if not hasattr(obj_attr, attr_name) or getattr(obj_attr, attr_name) is None:\n    setattr(obj_attr, attr_name, [])"
          and u(tail[1]) == "getattr(obj_attr, attr_name).append(value)", "list handler storage changed")
